@@ -19,7 +19,6 @@
 package c07
 
 import (
-	"os"
 	"bytes"
 	"fmt"
 	"runtime"
@@ -811,7 +810,7 @@ func TestCheck(t *testing.T) {
 		}
 	}
 	// Layer T: thread interleavings of the real queues (Engine T)
-	if os.Getenv("VERIF_LAYER_T") != "" {
+	{
 		bound := 2
 		if r.Thorough() {
 			bound = 3
